@@ -22,7 +22,8 @@ RULE = ('histories of attach / duplicate attach / detach / incoming Interest ove
         'representation (URI, list of str, list of bytes/bytearray/memoryview, encoded name), on appv2, legacy app and '
         'Dispatcher; exhaustive over all subsets of an 8-prefix tree x 16 Interest names; reply times at deadline '
         '-1/0/+1 ms; distinct = (target, attached set, Interest name) resp. (reply offset, lifetime); non-trivial = at '
-        'least two prefixes attached or a reply judged')
+        'least two prefixes attached or a reply judged; legacy attachments pick their own delivery options; v2 histories '
+        'also end the connection and reconnect the same application object')
 
 C = lambda s: rc.comp(8, s)   # noqa
 PREFIXES = [(), (C(b'a'),), (C(b'a'), C(b'b')), (C(b'a'), C(b'b'), C(b'c')), (C(b'a'), C(b'd')), (C(b'e'),),
@@ -83,22 +84,40 @@ class Target:
             self.app.shutdown()
             await asyncio.wait_for(self.main, 5)
 
-    def handler(self, hid):
+    def handler(self, hid, opts=(False, False)):
         if self.kind == 'v2':
             def h(name, app_param, reply, context):
                 self.log.append((hid, tuple(bytes(c) for c in name), reply, context))
+        elif opts == (True, True):
+            # legacy handlers have exactly the signature their delivery options ask for (as documented): a handler
+            # invoked with another handler's options fails with TypeError and has then not received the Interest
+            def h(name, param, app_param, *, raw_packet, sig_ptrs):
+                self.log.append((hid, tuple(bytes(c) for c in name), None, {'raw_packet': bytes(raw_packet), 'sig_ptrs': sig_ptrs}))
+        elif opts == (True, False):
+            def h(name, param, app_param, *, raw_packet):
+                self.log.append((hid, tuple(bytes(c) for c in name), None, {'raw_packet': bytes(raw_packet)}))
+        elif opts == (False, True):
+            def h(name, param, app_param, *, sig_ptrs):
+                self.log.append((hid, tuple(bytes(c) for c in name), None, {'sig_ptrs': sig_ptrs}))
         else:
             def h(name, param, app_param):
                 self.log.append((hid, tuple(bytes(c) for c in name), None, None))
         return h
 
-    def attach(self, form, hid):
+    def attach(self, form, hid, opts=(False, False)):
         if self.kind == 'v2':
             self.app.attach_handler(form, self.handler(hid))
         elif self.kind == 'v1':
-            self.app.set_interest_filter(form, self.handler(hid))
+            self.app.set_interest_filter(form, self.handler(hid, opts), need_raw_packet=opts[0], need_sig_ptrs=opts[1])
         else:
             self.d.register(form, self.handler(hid))
+
+    async def reconnect(self):
+        """End the connection (main_loop returns) and connect the same application object again."""
+        self.app.shutdown()
+        await asyncio.wait_for(self.main, 5)
+        self.main = asyncio.ensure_future(self.app.main_loop())
+        await asyncio.sleep(0)
 
     def detach(self, form):
         if self.kind == 'v2':
@@ -110,6 +129,7 @@ class Target:
 
     async def interest(self, name, lifetime=None, nonce=3):
         wire = bytes(make_interest(list(name), InterestParam(lifetime=lifetime, nonce=nonce)))
+        self.last_wire = wire
         if self.kind == 'dispatcher':
             n, p, a, s = parse_interest(wire)
             return self.d.dispatch(n, p, a)
@@ -127,6 +147,7 @@ def run_history(ctx, rng, kind, ops, label):
         T = Target(kind, log)
         await T.start()
         attached = {}
+        hopts = {}
         hid_seq = [0]
         for op in ops:
             w = {'target': kind, 'op': [op[0]] + [[c.hex() for c in op[1]]] + list(op[2:]), 'attached': [[c.hex() for c in k] for k in attached]}
@@ -136,8 +157,11 @@ def run_history(ctx, rng, kind, ops, label):
                 w['form'] = fl
                 hid_seq[0] += 1
                 hid = hid_seq[0]
+                # legacy front-end: every attachment picks its own delivery options (raw packet / signature pointers)
+                opts = (rng.random() < 0.4, rng.random() < 0.4) if kind == 'v1' else (False, False)
+                w['options'] = list(opts)
                 try:
-                    T.attach(form, hid)
+                    T.attach(form, hid, opts)
                     raised = None
                 except Exception as e:   # noqa
                     raised = e
@@ -151,7 +175,20 @@ def run_history(ctx, rng, kind, ops, label):
                         res['viol'].append((f'attach-raises:{kind}:{type(raised).__name__}:{fl}', f'attaching a free prefix raised {raised!r}', w))
                     else:
                         attached[pre] = hid
+                        hopts[hid] = opts
                         ctx.event('attach')
+                        if any(opts):
+                            ctx.event('attach-with-delivery-options')
+            elif op[0] == 'reconnect':
+                # the current front-end documents that handler associations survive the end of a connection; the legacy
+                # one clears its table by design, which the statement does not speak about: only v2 histories reconnect
+                try:
+                    await T.reconnect()
+                    ctx.event('reconnect')
+                    if attached:
+                        ctx.event('reconnect-with-handlers-attached')
+                except Exception as e:   # noqa
+                    res['viol'].append((f'reconnect-raises:{kind}:{type(e).__name__}', f'reconnecting raised {e!r}', w))
             elif op[0] == 'detach':
                 pre = tuple(op[1])
                 if pre not in attached:
@@ -193,6 +230,8 @@ def run_history(ctx, rng, kind, ops, label):
                         res['viol'].append((f'wrong-handler:{kind}', f'Interest reached handler {got[0][0]}, longest attached prefix belongs to {exp}', w))
                     elif got[0][1] != tuple(bytes(c) for c in name):
                         res['viol'].append((f'handler-name-differs:{kind}', 'handler received a different name', w))
+                    elif kind == 'v1' and hopts.get(exp, (False, False))[0] and got[0][3].get('raw_packet') != T.last_wire:
+                        res['viol'].append((f'handler-raw-packet-differs:{kind}', 'handler asked for the raw packet and received other bytes', w))
                     if kind == 'dispatcher' and ret is not True:
                         res['viol'].append(('dispatcher-return-on-hit', 'dispatch() did not return True on a hit', w))
                 ctx.case((kind, tuple(sorted(attached)), name), nontrivial=len(attached) >= 2)
@@ -336,13 +375,16 @@ def run(ctx):
             k = rng.random()
             if k < 0.35:
                 ops.append(('attach', rng.choice(PREFIXES)))
+            elif k < 0.40 and kind == 'v2':
+                ops.append(('reconnect', ()))
             elif k < 0.55:
                 ops.append(('detach', rng.choice(PREFIXES)))
             else:
                 ops.append(('interest', rng.choice(INT_NAMES)))
         run_history(ctx, rng, kind, ops, 'random')
     check_reply(ctx, rng)
-    for k in ('attach', 'detach', 'duplicate-attach', 'interest-hit', 'interest-miss', 'reply-sent', 'reply-late'):
+    for k in ('attach', 'detach', 'duplicate-attach', 'interest-hit', 'interest-miss', 'reply-sent', 'reply-late', 'attach-with-delivery-options',
+              'reconnect-with-handlers-attached'):
         ctx.need_event(k)
     ctx.assumptions = ['detaching a never-attached prefix and handler exceptions are outside the statement',
                        'the reply clause is judged on the current front-end (the legacy one has no reply callback)']
